@@ -65,6 +65,8 @@ MUTANTS = [
      "\t\t\t} else {\n\t\t\t\td.outputEvents <- midi.ControlChangeEvent(channel, analog.CC, byte(int(float64(127)*adjustedValue)))\n\t\t\t\tif !d.ccZeroed[analog.CCNeg] {\n\t\t\t\t\td.outputEvents <- midi.ControlChangeEvent(channelNeg, analog.CCNeg, 0)\n\t\t\t\t\td.ccZeroed[analog.CCNeg] = true\n\t\t\t\t}\n\t\t\t\td.ccZeroed[analog.CC] = false\n\t\t\t}\n\t\tcase canBeNegative && !analog.Bidirectional:", ["C07"]),
     ("c07-learning-threshold", EVS, "if d.ccLearning && !(value < -0.5 || value > 0.5) {", "if d.ccLearning && !(value < -0.5 || value > 0.3) {", ["C07"]),
     ("c01-notetracker-by-code-only", DEV, "\treturn keyID{subHandler: ev.Source.Name, code: ev.Event.Code}", "\treturn keyID{code: ev.Event.Code}", ["C01", "C02", "C03"]),
+    ("c01-learning-filter-all-axis-types", EVS, " &&\n\t\t(analog.MappingType == config.AnalogCC || analog.MappingType == config.AnalogPitchBend) {", " {", ["C01"]),
+    ("c16-no-watchdog-for-mute-server", "internal/pkg/midi/device/open_rgb.go", "\t\tcase <-time.After(time.Millisecond * 500):\n\t\t\tc.Close()", "\t\tcase <-time.After(time.Hour):\n\t\t\tc.Close()", ["C16"]),
     ("c08-tracker-by-code-only", EVS, "identifier := fmt.Sprintf(\"%s/%d\", ie.Source.Name, ie.Event.Code)", "identifier := fmt.Sprintf(\"%d\", ie.Event.Code)", ["C08"]),
     ("c08-thresholds-swapped", EVS, "\t\tcase value > -0.49 && value < 0.49:\n\t\t\td.AnalogNoteOff(identifier, ie)", "\t\tcase value > -0.3 && value < 0.3:\n\t\t\td.AnalogNoteOff(identifier, ie)", ["C08"]),
     ("c08-noteoff-current-transposition", DEV, "\tnote, channel := noteAndChannel[0], noteAndChannel[1]\n\n\tevent := midi.NoteEvent(midi.NoteOff, channel, note, 0)",
